@@ -7,6 +7,7 @@ from .prune import is_call
 
 LEVEL = 'other'
 RULES = {
+    'C01.R7': 'the node estimate every distillation entry point starts with cannot underflow (shared with C18.R6)',
     'C01.R6': 'the links, leaf flags and node set this property reads are what the arena mutators maintain as their effect contracts say (shared with C12.R2)',
     'C01.R5': helpers.RULE_TEXT,
     'C01.R1': 'layer dispatch table: each Layer variant reaches its own generator with its own payload and the running dimension; constants by value; composed receiver is the tree being built',
@@ -16,7 +17,7 @@ RULES = {
 }
 CONTROL_REV = '078b142'  # thorough tier: the rules must still report the defects found (and since fixed) on the original tree
 CONTROLS = [('C01.R2', 'afftree_from_layers_generic#dim:Argmax'), ('C01.R2', 'afftree_from_layers_generic#dim:ClassChar')]
-FLOORS = {'C01.R6': 15, 'C01.R5': 16, 'C01.R1': 7, 'C01.R2': 7, 'C01.R3': 1, 'C01.R4': 30}
+FLOORS = {'C01.R7': 1, 'C01.R6': 15, 'C01.R5': 16, 'C01.R1': 7, 'C01.R2': 7, 'C01.R3': 1, 'C01.R4': 30}
 EXPLANATION = ('C01 is the composition of C02 (apply_func/compose), C03 (elimination), C17 (schema trees) and the clause decided here: the distiller feeds each layer to the right '
                'generator with the right arguments and keeps its running dimension equal to the tree\'s output dimension.')
 DOES_NOT_DECIDE = 'numeric agreement (delegated to C02/C03/C17 and their limits)'
@@ -107,6 +108,7 @@ def shared(ctx):
 
 def run(ctx):
     helpers.run_for(ctx)
+    prune.check_no_unsigned_underflow(ctx, 'C01.R7', '<SimpleNodeEstimator as NodeEstimator>::estimate_nodes')
     helpers.share_arena_contracts(ctx, 'C01.R6')
     F = ctx.facts
     b = ctx.body('C01.R1', 'afftree_from_layers_generic')
